@@ -202,6 +202,19 @@ CHECKS["C10"] = (
     "DESIGN.md §3 C10",
 )
 
+CHECKS["C11"] = (
+    "exploration",
+    "invalidation reference model (slot states empty/cached/override + dependency closure from the generated declaration) run in lock-step; every derived value of every live instance is read after every operation and compared with the getter formula evaluated by the harness on raw state; getter invocations counted through a probe",
+    "All combinations of (p cache, p invalidated_by in {[a],[b],[a,b],[c],[u unmanaged],['*']}, q cache, q invalidated_by in "
+    "{[p],[a],[p,b],['*']}, b plain or invalidated_by=[a], cache filled in __post_init__, lazy/eager) plus a spec subclass adding a "
+    "dependant attribute and a dependant cached property, driven by histories interleaving reads, overrides, deletions and every "
+    "mutation entry point (assignment, del, with_/transform_/reset_ helpers, element helpers, update/transform/reset; in place and "
+    "on the returned copy; failing variants). Stale values, lost overrides/caches after unrelated or failed mutations, and "
+    "invalidated_by attributes not back at their default are violations.",
+    "Trusted: the model in checks/c11.py; wildcard graphs that form a cycle through property slots are excluded (what '*' covers there is undocumented).",
+    "DESIGN.md §3 C11",
+)
+
 NOT_YET = {}
 
 
